@@ -81,7 +81,7 @@ func vary(rt *rapid.T, label string, s []byte, sameLen, eqBytes bool) []byte {
 				switch lens[k] {
 				case 1:
 					if s[i] >= utf8.RuneSelf {
-						out = append(out, []byte{0xE2, 0x80, 0xB9, 0xBA, 0xC3, 0xFF}[(shift+k)%6])
+						out = append(out, s[i])
 					} else {
 						out = append(out, string(vary1[(shift+k)%len(vary1)])...)
 					}
@@ -116,8 +116,11 @@ func vary(rt *rapid.T, label string, s []byte, sameLen, eqBytes bool) []byte {
 			if eqBytes {
 				switch lens[k] {
 				case 1:
-					if s[i] >= utf8.RuneSelf { // invalid byte stays an invalid byte
-						out = append(out, []byte{0xE2, 0x80, 0xB9, 0xBA, 0xC3, 0xFF}[rapid.IntRange(0, 5).Draw(rt, label+"_vb")])
+					if s[i] >= utf8.RuneSelf {
+						// an invalid byte is shared by both instantiations: a
+						// substitute could assemble with its neighbours into a valid
+						// rune, which changes the rune count (width, precision)
+						out = append(out, s[i])
 						i++
 						continue
 					}
